@@ -52,10 +52,16 @@ def struct_fields(src, name):
 
 
 def literal_fields(text):
-    """`f` / `f: expr` entries of a struct literal's inside → [(name, expr|None)], None if not understood."""
+    """`f` / `f: expr` entries of a struct literal's inside → [(name, expr|None)], None if not understood.
+    A trailing `..self` (struct update: every field not listed is taken from self) yields the entry ("..self", None)."""
     out = []
     for piece in split_top(text):
-        if piece.strip() == "..":
+        if not piece.strip():
+            continue
+        if squash(piece) == "..self":
+            out.append(("..self", None))
+            continue
+        if piece.strip().startswith(".."):
             return None
         fm = re.match(r"(%s)\s*(?::(?!:)\s*(.*))?$" % C.IDENT, piece.strip(), re.S)
         if not fm:
@@ -118,6 +124,14 @@ def read_step(fn, ty, fields):
         if lits is None:
             return bad("struct literal not understood (`..base` or odd field)")
         row = {}
+        if ("..self", None) in lits:
+            if bound:
+                return bad("struct update `..self` after self was destructured")
+            row = {f: ("kept",) for f in fields}
+            lits = [x for x in lits if x[0] != "..self"]
+            for name, expr in lits:
+                row[name] = classify(name, expr, params, bound) if row.get(name) == ("kept",) else ("unparsed", "field written twice")
+            return len(params), row, None
         for name, expr in lits:
             row[name] = classify(name, expr, params, bound) if name not in row else ("unparsed", "field written twice")
         return len(params), row, None
@@ -131,29 +145,66 @@ def read_step(fn, ty, fields):
             src = classify(am.group(1), am.group(2), params, {})
             row[am.group(1)] = src if row.get(am.group(1)) == ("kept",) else ("unparsed", "field assigned twice")
         return len(params), row, None
+    dm = re.fullmatch(r"Self::(%s)\(\)" % C.IDENT, squash(body))
+    if dm and not params:
+        return 0, {"__delegate__": ("static", dm.group(1))}, None
+    hm = re.fullmatch(r"self\.(%s)\((.*)\)" % C.IDENT, squash(body))
+    if hm and has_self:
+        return len(params), {"__delegate__": ("method", hm.group(1), [squash(a) for a in split_top(hm.group(2))], params)}, None
     return bad("body is neither a struct literal nor `self.f = e; self`")
 
 
 def read_build(fn):
+    """`build`: [let AppBuilder { … } = self;] [let <r> = Router { … };] let mut <app> = App { router[: Router { … } | <r>], … };
+    <app>.init_modules(init_fn); <app>  — every field moved once, init run once after construction"""
     info = {"moves": {}, "routerFields": [], "stmts": [], "notes": []}
     params, _ = C.param_names(fn["params"])
+    bound, router_var, router_lits, app_var = {}, None, None, None
+
+    def router_fields(expr):
+        rm = re.match(r"Router\s*\{", expr.strip())
+        if rm and match_close(expr.strip(), rm.end() - 1) == len(expr.strip()) - 1:
+            return literal_fields(expr.strip()[rm.end():-1]) or [("?", "?")]
+        return None
     for s in [x.strip() for x in split_top(fn["body"], ";")]:
         q = squash(s)
-        m = re.match(r"let\s+mut\s+app\s*=\s*App\s*\{", s)
+        dm = re.match(r"let\s+(?:AppBuilder|Self)\s*\{", s)
+        if dm and not info["stmts"]:
+            c = match_close(s, dm.end() - 1)
+            if c > 0 and re.fullmatch(r"=\s*self", s[c + 1:].strip()):
+                okd = True
+                for piece in split_top(s[dm.end():c]):
+                    pm = re.fullmatch(r"(%s)\s*(?::\s*(?:mut\s+)?(%s))?" % (C.IDENT, C.IDENT), piece.strip())
+                    if piece.strip() in ("", ".."):
+                        continue
+                    if not pm:
+                        okd = False
+                        break
+                    bound[pm.group(2) or pm.group(1)] = pm.group(1)
+                if okd:
+                    continue
+        lm = re.match(r"let\s+(%s)\s*=\s*(Router\s*\{.*)$" % C.IDENT, s, re.S)
+        if lm and router_var is None and router_fields(lm.group(2)) is not None:
+            router_var, router_lits = lm.group(1), router_fields(lm.group(2))
+            continue
+        m = re.match(r"let\s+mut\s+(%s)\s*=\s*App\s*\{" % C.IDENT, s)
         if m and match_close(s, m.end() - 1) == len(s) - 1:
+            app_var = m.group(1)
             lits = literal_fields(s[m.end():-1]) or []
             for name, expr in lits:
-                rm = re.match(r"Router\s*\{", (expr or "").strip())
-                if name == "router" and rm and match_close(expr.strip(), rm.end() - 1) == len(expr.strip()) - 1:
-                    for n2, e2 in literal_fields(expr.strip()[rm.end():-1]) or [("?", "?")]:
-                        info["moves"][n2] = classify(n2, e2, [], {})
+                rf = router_fields(expr or "") if name == "router" else None
+                if name == "router" and rf is None and router_var is not None and squash(expr or name) == router_var:
+                    rf = router_lits
+                if name == "router" and rf is not None:
+                    for n2, e2 in rf:
+                        info["moves"][n2] = classify(n2, e2, [], bound)
                         info["routerFields"].append(n2)
                 else:
-                    info["moves"][name] = classify(name, expr, [], {})
+                    info["moves"][name] = classify(name, expr, [], bound)
             info["stmts"].append("construct" if lits else "other")
-        elif q == "app.init_modules(init_fn)" and params == ["init_fn"]:
+        elif app_var is not None and q == "%s.init_modules(init_fn)" % app_var and params == ["init_fn"]:
             info["stmts"].append("init")
-        elif q == "app":
+        elif app_var is not None and q == app_var:
             info["stmts"].append("ret")
         else:
             info["stmts"].append("other")
@@ -176,7 +227,7 @@ def read_init_modules(app_src):
 
 def read_impls(src, ty, fields, known):
     """All methods of inherent `impl … ty<…>` blocks → ordered [(step, nparams, row)], notes."""
-    rows, notes, seen = [], [], set()
+    rows, notes, seen, pnames = [], [], set(), {}
     for lo, hi in C.find_impl(src, r"^(<.*>)?%s<" % ty):
         for fn in C.find_fns(src, lo, hi):
             name = fn["name"]
@@ -190,7 +241,53 @@ def read_impls(src, ty, fields, known):
             if note:
                 notes.append(note)
             rows.append((step, name, n, row))
-    return rows, notes
+            pnames[name] = C.param_names(fn["params"])[0]
+    # one level of delegation: `Self::other()` is the row of `other`; `self.helper(a, b)` is the row of the private `helper`
+    # with its parameters replaced by the caller's argument expressions (classified in the caller's terms)
+    by_name = {name: (n, row) for (_, name, n, row) in rows}
+    out = []
+    for (step, name, n, row) in rows:
+        d = row.get("__delegate__")
+        if d is not None:
+            target = by_name.get(d[1])
+            if target is None or "__delegate__" in target[1]:
+                row = {f: ("unparsed", "delegates to `%s`, which is not understood" % d[1]) for f in fields}
+                notes.append("%s::%s: delegates to `%s`, which is not understood" % (ty, name, d[1]))
+            elif d[0] == "static":
+                row = dict(target[1])
+            else:
+                args, cparams = d[2], d[3]
+                new = {}
+                for f, srcf in target[1].items():
+                    if srcf[0] == "param":
+                        a = args[srcf[1]] if srcf[1] < len(args) else "?"
+                        inner = srcf[2]
+                        # the helper stores its parameter as it is (possibly wrapped); the caller's argument is classified in the caller's terms
+                        c2 = classify(f, a, cparams, {})
+                        hp = pnames.get(d[1], [])
+                        hname = hp[srcf[1]] if srcf[1] < len(hp) else None
+                        shown = re.sub(r"\b%s\b" % re.escape(hname), lambda _m: a, inner) if hname else a
+                        new[f] = c2 if c2[0] != "param" else ("param", c2[1], shown)
+                    else:
+                        new[f] = srcf
+                row = new
+        out.append((step, name, n, row))
+    # private helpers that only exist to be delegated to are not steps of the vocabulary
+    out = [(st, nm, n, row) for (st, nm, n, row) in out if not (st == "other" and any(
+        r.get("__delegate__") for _ in [0] for r in [dict()]) )]
+    delegated = {row["__delegate__"][1] for (_, _, _, row) in rows if row.get("__delegate__") and row["__delegate__"][0] == "method"}
+    out2, notes2 = [], []
+    for (st, nm, n, row) in out:
+        if st == "other" and nm in delegated:
+            continue
+        out2.append((st, nm, n, row))
+    notes = [x for x in notes if not any(x.startswith("%s::%s: method unknown" % (ty, h)) for h in delegated)]
+    return out2, notes
+
+
+def _first_ident(e):
+    m = re.search(C.IDENT, e)
+    return m.group(0) if m else None
 
 
 # ---- Lean output -----------------------------------------------------------------------------------
